@@ -115,7 +115,9 @@ func vClientLines(now int64, full bool) []VLine {
 	okJoin := fmt.Sprintf("okay:join:%d:#c", now)
 	add("nick", "NICK a", "NICK A", "NICK b", "NICK c", "NICK [x", "NICK {x", "NICK ]x", "NICK x", "NICK ChanServ", "NICK fooserv", "NICK 1bad", "NICK", "NICK :", "NICK held", "NICK "+strings.Repeat("n", 31), "NICK "+strings.Repeat("n", 32), "NICK a b c",
 		"NICK p\\q", "NICK p|q", "NICK P\\Q", "NICK ^x", "NICK ~x", "NICK x`y", "NICK x_y", "NICK x-y")
-	add("user", "USER u 0 * :Real", "USER u 0 *", "USER u 0 * :", "USER", "USER u", "USER x\x00y 0 * :r\ry", "USER "+vLong520+" 0 * :"+vLong600)
+	add("user", "USER u 0 * :Real", "USER u 0 *", "USER u 0 * :", "USER", "USER u", "USER x\x00y 0 * :r\ry", "USER "+vLong520+" 0 * :"+vLong600,
+		// longer than the 64 bytes kept, byte 64 inside a 2-byte / 3-byte character
+		"USER "+strings.Repeat("u", 63)+"\u00e9\u00e9 0 * :Real", "USER "+strings.Repeat("u", 62)+"\u20ac\u20ac 0 * :Real")
 	add("pass", "PASS pw", "PASS :nickserv=x", "PASS :services=svcpw", "PASS :services=wrong", "PASS :oper=root operpw", "PASS :oper=root wrong", "PASS :oper=root", "PASS", "PASS :", "PASS :session=x:oper=root operpw",
 		"PASS :captcha="+tok(fmt.Sprintf("okay:login:%d:", now)), "PASS :captcha="+tok(fmt.Sprintf("login:%d:", now)), "PASS :captcha="+vCaptcha(vSecret, fmt.Sprintf("okay:login:%d:", now), "authXXXX", true),
 		"PASS :captcha="+tok(fmt.Sprintf("okay:login:%d:", now-int64(6*time.Minute))), "PASS :captcha=x.y", "PASS :captcha=!.!.!")
@@ -267,7 +269,7 @@ func vReduce(ls []VLine) []VLine {
 			}
 		}
 		key += fmt.Sprintf("|%d", len(f))
-		if l.Tag == "mode" || l.Tag == "join" || l.Tag == "kick" || l.Tag == "invite" || l.Tag == "nick" || l.Tag == "topic" || l.Tag == "part" || l.Tag == "svc" || l.Tag == "kill" || l.Tag == "oper" || l.Tag == "pass" {
+		if l.Tag == "mode" || l.Tag == "join" || l.Tag == "kick" || l.Tag == "invite" || l.Tag == "nick" || l.Tag == "topic" || l.Tag == "part" || l.Tag == "svc" || l.Tag == "kill" || l.Tag == "oper" || l.Tag == "pass" || l.Tag == "user" {
 			key = l.Data // privilege/membership-relevant classes are kept in full
 			if len(key) > 60 {
 				key = key[:60]
